@@ -201,6 +201,22 @@ pub fn no_panic<T>(what: &str, f: impl FnOnce() -> T) -> Result<T, String> {
 }
 
 fn checked<P: Property>(p: &P, input: &P::Input, obs: &mut Obs) -> Result<(), String> {
+    // VERIF_SLOW_MS=n: report cases slower than n ms on stderr (generator tuning aid)
+    let t0 = std::time::Instant::now();
+    let r = checked_inner(p, input, obs);
+    if let Some(ms) = slow_ms() {
+        let e = t0.elapsed().as_millis() as u64;
+        if e >= ms {
+            eprintln!("SLOW {} ms: {}", e, serde_json::to_string(input).unwrap_or_default().chars().take(300).collect::<String>());
+        }
+    }
+    r
+}
+fn slow_ms() -> Option<u64> {
+    static V: std::sync::OnceLock<Option<u64>> = std::sync::OnceLock::new();
+    *V.get_or_init(|| std::env::var("VERIF_SLOW_MS").ok().and_then(|s| s.parse().ok()))
+}
+fn checked_inner<P: Property>(p: &P, input: &P::Input, obs: &mut Obs) -> Result<(), String> {
     match std::panic::catch_unwind(std::panic::AssertUnwindSafe(|| p.check(input, obs))) {
         Ok(r) => r,
         Err(_) => {
